@@ -33,8 +33,8 @@ structure SInv (s : St) : Prop where
   fitsW : ∀ x, (s.sends x).st = .waiting ∨ (s.sends x).st = .handed →
     (s.sends x).fits = true ∧ (s.sends x).slot = none
 
-theorem SInv_init : SInv init := by
-  constructor <;> simp [init]
+theorem SInv_init (f p : Nat → Nat) : SInv (initSz f p) := by
+  constructor <;> simp [initSz]
 
 set_option maxHeartbeats 2000000 in
 theorem SInv_step (s s' : St) (a : Act) (h : SInv s) (hs : step s a = some s') : SInv s' := by
